@@ -170,9 +170,17 @@ int main(int argc, char **argv) {
     jobs.push_back({cfgs[8], 2, 1, 2});
     jobs.push_back({cfgs[10], 2, 1, 2});
     jobs.push_back({cfgs[4], 2, 1, 2});
+    jobs.push_back({cfgs[15], 2, 1, 2}); // tight-pool-plain with post-operation scheduling points
   } else {
     jobs.push_back({cfgs[0], 3, 1, 1});
     jobs.push_back({cfgs[2], 3, 0, 1});
+  }
+  if (!A.get("only").empty()) {
+    std::vector< Job > keep;
+    for (const Config &c : cfgs)
+      if (c.name == A.get("only"))
+        keep.push_back({c, (int)A.geti("threads", 2), (int)A.geti("ownership", 1), (int)A.geti("bound", 1)});
+    jobs = keep;
   }
   if (!A.replay.empty()) {
     jobs.clear();
@@ -350,7 +358,7 @@ int main(int argc, char **argv) {
   R.set("configuration_runs", (double)jobs_done);
   R.set("distinct_outcomes_summed", (double)total_outcomes);
   // vacuity guard: the events the configurations exist to exercise
-  if (A.replay.empty() && jobs_done == njobs) {
+  if (A.replay.empty() && A.get("only").empty() && jobs_done == njobs) {
     for (const char *need : {"discrete-launch", "continuous-launch", "re-emission", "not-re-emitted", "escaped",
                              "absorbed-final", "second-iteration", "tasktype-17", "tasktype-3", "premature-launch",
                              "buffer-full"})
